@@ -115,7 +115,7 @@ def observe(rule_name, element, kids, content):
     return res
 
 
-def judge(ctx, rule_name, element, kids, content, stats=None):
+def judge(ctx, rule_name, element, kids, content, stats=None, after=None):
     spec = emlkit.rules_table()[rule_name][2]
     mixed = emlkit.is_mixed(rule_name)
     exp, parts = C.rule_verdict(spec, content, mixed, bool(kids))
@@ -124,6 +124,8 @@ def judge(ctx, rule_name, element, kids, content, stats=None):
     ctx.count("failfast_calls")
     ctx.count("collecting_calls")
     wit = {"rule": rule_name, "element": element, "children": kids, "content": content}
+    if after is not None:
+        wit["after_the_same_content_with_children"] = after
     shown = f"{rule_name} content {content!r}" + (f" with children {kids}" if kids else "")
     for mode, got in (("failfast", ff), ("collecting", co)):
         if got not in (C.ACCEPT, C.REJECT):
@@ -198,6 +200,13 @@ def run(ctx, params):
                 if n % 1499 == 1:
                     ctx.sample({"rule": rule_name, "element": el, "content": v, "children": kids, "reference": exp,
                                 "failfast": ff, "collecting": co})
+        if len(variants) > 1:
+            # the other order: the same content was just validated on a node WITH children (where the non-empty constraint is
+            # waived); the childless node comes after it and must get its own verdict
+            for v in values[:150]:
+                judge(ctx, rule_name, elements[0], variants[1], v)
+                judge(ctx, rule_name, elements[0], variants[0], v, None, after=variants[1])
+                ctx.count("childless_judged_right_after_same_content_with_children")
         rc = ctx.cover.setdefault("rules", {})
         rc[rule_name] = rc.get(rule_name, 0) + n
 
@@ -224,6 +233,8 @@ def finish(merged):
 
 
 def replay(ctx, witness):
+    if witness.get("after_the_same_content_with_children"):
+        judge(ctx, witness["rule"], witness["element"], witness["after_the_same_content_with_children"], witness["content"])
     out = judge(ctx, witness["rule"], witness["element"], witness["children"], witness["content"])
     ctx.distinct((witness["rule"], witness["content"]))
     ctx.distinct((witness["rule"], "replay"))
